@@ -33,7 +33,9 @@ META = dict(
                'property about its correctness) and validated op by op; group closure of the op list is checked per crystal. '
                'Floating-point thresholds (__isclose__, np.isclose in the obstruction test) are not modelled: cases whose '
                'outcome hinges on an atom exactly on a boundary of the obstruction region, or on a shell within 1e-6 of the '
-               'cutoff, are classified by the model and accepted either way.',
+               'cutoff, are classified by the model and accepted either way - except atoms whose rational projection falls exactly on an '
+               'end point of the representative jump: there the closed segment test of the source is re-evaluated with the source\'s own '
+               'float expressions and a kept jump is a violation when that test passes.',
     technique='Lean 4 proof (Cauchy-Schwarz box bound, orbit/partition lemmas, isometry) + ast-translated box formula + '
               'differential exact model vs implementation + direct oracles',
     lean_modules=['OnsagerModel.C21', 'OnsagerProofs.C21Geom', 'OnsagerProofs.C21Orbit', 'OnsagerProofs.C21', 'Generated.C21Facts',
@@ -52,8 +54,9 @@ META = dict(
                   'Onsager.C21.dual_forms_complete'],
     rule='one case = (crystal, mobile species, cutoff, closestdistance); crystals from a zoo (SC, FCC, BCC, HCP, B2, L1_2, '
          'diamond, NaCl, interstitial decorations, 2-D square/triangular/honeycomb) and random rational-metric cells of '
-         'every Bravais family incl. obtuse/acute rhombohedral, needle/plate and skewed noreduce=True cells; cutoffs just '
-         'above or between exact shell radii; scalar and per-species closestdistance incl. exact-boundary values; '
+         'every Bravais family incl. obtuse/acute rhombohedral, needle/plate and skewed noreduce=True cells, layered two-species '
+         'cells (obstructing atoms exactly in the planes through the end sites of a jump); cutoffs just above or between exact '
+         'shell radii; scalar and per-species closestdistance incl. values just below / above the distance of end-plane atoms; '
          'non-trivial = network has at least one class; distinct by (metric, basis, chem, cutoff, closestdistance)',
     trusted=['ast classification of the nmax formula (harness/props/c21.py: extract)',
              'space-group operations are read from Crystal.G and validated exactly by the model'],
@@ -225,6 +228,7 @@ def obstruction_status(X, chem, jumps, cds_m2, r2):
     crys = X.crys
     eps = float(EPS)
     out, blockers = {}, {}
+    edges = obstruction_status.edges = {}     # J -> atoms (c, a, n, m2) in the planes through the end sites, within the distance
     if not cds_m2:
         return {J: 0 for J in jumps}, {}
     R2 = Fr(r2) + max(m for _, m in cds_m2)
@@ -252,6 +256,9 @@ def obstruction_status(X, chem, jumps, cds_m2, r2):
                     k = int(np.argmax(b1)); blockers[J] = (c, a, tuple(int(t) for t in nv[k]))
                     break
                 if not nb.all(): st = 2
+                onplane = ((np.abs(p) <= eps * v2) | (np.abs(p - v2) <= eps * v2)) & close
+                for k in np.nonzero(onplane)[0][:8]:
+                    edges.setdefault(J, []).append((c, a, tuple(int(t) for t in nv[k]), m2))
             if st == 1: break
         out[J] = st
     return out, blockers
@@ -322,6 +329,34 @@ def oracle(ctx, X, case, classes, bad, jn, box):
         viol('obstructed-kept:' + ('obstacle-outside-search-box' if only_outside else 'obstacle-inside-search-box'),
              'jump %s is kept although atom (%d,%d)+%s lies within closestdistance of its path' % (jkey(J), c, a, list(n)),
              jumps=[jkey(K) for K in kept_blocked[:12]])
+    # atoms exactly in the plane through an end site of the representative (projection 0 or dx^2: the closed segment test
+    # of the property includes them).  Claimed only when the rational projection is exactly on the end point, the atom is
+    # inside the box the source scans, and the source's own float expressions put it on the closed segment within the distance.
+    edges = getattr(obstruction_status, 'edges', {})
+    for k, cl in enumerate(classes):
+        if not cl or cl[0] not in exact or status.get(cl[0]) != 2: continue
+        J0 = cl[0]
+        dxf = np.array(jn[k][0][1], dtype=float)
+        dx2f = np.dot(dxf, dxf)
+        vex = X.dx(chem, *J0)
+        v2ex = LG.qform(X.g, vex, vex)
+        for (c, a, n, m2f) in edges.get(J0, []):
+            if box is not None and any(abs(n[t]) > box[t] for t in range(X.d)): continue
+            xex = [Fr(n[t]) + X.basis[c][a][t] - X.basis[chem][J0[0]][t] for t in range(X.d)]
+            pex = LG.qform(X.g, xex, vex)
+            if pex != 0 and pex != v2ex: continue
+            xf = crys.unit2cart(np.array(n), crys.basis[c][a] - crys.basis[chem][J0[0]])
+            pf = np.dot(xf, dxf)
+            if not (0 <= pf <= dx2f): continue
+            d2f = (np.dot(xf, xf) * dx2f - pf * pf) / dx2f
+            if np.isclose(d2f, m2f) or d2f < m2f:
+                viol('obstructed-kept:obstacle-in-end-plane',
+                     'jump %s is kept although atom (%d,%d)+%s projects exactly onto %s of the jump at distance^2 %.6g <= closestdistance^2 %.6g'
+                     % (jkey(J0), c, a, list(n), 'the start' if pex == 0 else 'the end', float(d2f), float(m2f)),
+                     jumps=[jkey(K) for K in cl[:6]])
+                break
+        else: continue
+        break
     # closure of every class under the group and reversal
     def closure_failure():
         for cl in classes:
@@ -380,10 +415,40 @@ def choose_cutoffs(rng, X, chem, n):
     return out
 
 
+def end_plane_distances(X, chem, r2):
+    """exact squared distances of atoms of other species lying exactly in the planes through the end sites of a jump
+    (perpendicular to it), for the jumps below the cutoff: {species: sorted distances^2}"""
+    out = {}
+    jumps = list(X.all_jumps(chem, r2))[:24]
+    for J in jumps:
+        v = X.dx(chem, *J); v2 = LG.qform(X.g, v, v)
+        for c, atoms in enumerate(X.basis):
+            if c == chem: continue
+            for a, ua in enumerate(atoms):
+                for n in itertools.product(range(-1, 2), repeat=X.d):
+                    x = [Fr(n[t]) + ua[t] - X.basis[chem][J[0]][t] for t in range(X.d)]
+                    p = LG.qform(X.g, x, v)
+                    if p == 0: out.setdefault(c, set()).add(LG.qform(X.g, x, x))
+                    elif p == v2:
+                        y = [a_ - b_ for a_, b_ in zip(x, v)]
+                        out.setdefault(c, set()).add(LG.qform(X.g, y, y))
+    return {c: sorted(d for d in ds if d > 0) for c, ds in out.items()}
+
+
 def choose_cd(rng, X, chem, cutoff, malformed=False):
     """closestdistance argument and the exact m2 per species"""
     crys = X.crys
     others = [c for c in range(crys.Nchem) if c != chem]
+    if others and rng.random() < 0.4:
+        # obstruction distance just below / above the distance of atoms sitting exactly in an end plane of a jump
+        ep = end_plane_distances(X, chem, Fr(cutoff * cutoff))
+        ep = {c: d for c, d in ep.items() if d}
+        if ep:
+            c0 = rng.choice(sorted(ep))
+            dist = math.sqrt(float(rng.choice(ep[c0][:3]))) * rng.choice([0.8, 1.2, 1.2, 1.5])
+            cd = dist if rng.random() < 0.5 else [dist if c == c0 else 0.0 for c in range(crys.Nchem)]
+            cds = norm_cds(crys, chem, cd)
+            return cd, [(c, Fr(x * x)) for c, x in cds]
     r = rng.random()
     if not others or r < 0.15:
         cd = 0
@@ -407,6 +472,7 @@ CORPUS = {   # regression inputs that run in every tier: crystal name -> [(chem,
     'FCC': [(0, 0.75, 0)], 'BCC': [(0, 0.9, 0)], 'HCP': [(0, 1.01, 0)],
     'FCC+oct': [(1, 0.75, [0.45, 0.0]), (1, 0.75, 0.3)], 'B2': [(0, 1.01, 0.45), (0, 1.01, 0.55)],
     'honeycomb': [(0, 0.6, 0)], 'square': [(0, 1.5, 0)],
+    'tetragonal-stack': [(0, 1.2, 0.9), (0, 1.2, [0.0, 0.9]), (0, 1.2, 0.6)], 'rect-stack-2D': [(0, 1.2, 0.9), (0, 1.2, 0.6)],
 }
 
 
@@ -432,6 +498,27 @@ def crystals(ctx, nrand):
             out.append(LG.XCrystal(th(), name))
         except LG.SnapFail as e:
             ctx.count('snap-fail')
+    # layered two-species cells: species 1 directly above species 0 along an axis perpendicular to the layer, so that
+    # obstructing atoms sit exactly in the planes through the end sites of in-layer jumps
+    for t in range(max(4, nrand // 6)):
+        try:
+            kind = rng.choice(['tetragonal', 'orthorhombic', 'hexagonal', 'cubic', 'rect', 'square'])
+            g = LG.rand_metric(rng, kind)
+            d = len(g)
+            sp = [Fr(0), Fr(1, 2), Fr(1, 3), Fr(2, 3), Fr(1, 4)]
+            inplane = []
+            for _ in range(rng.randint(1, 2)):
+                u = tuple(rng.choice(sp) for _ in range(d - 1))
+                if u not in inplane: inplane.append(u)
+            z = rng.choice([Fr(1, 2), Fr(1, 3), Fr(1, 4)])
+            basis = [[u + (Fr(0),) for u in inplane], [u + (z,) for u in inplane]]
+            crys = LG.make_crystal(g, basis)
+            out.append(LG.XCrystal(crys, 'stacked-%s g=%s basis=%s' % (kind, LG.rmat(g), '#'.join(';'.join(LG.rlist(u) for u in a) for a in basis))))
+            ctx.count('crystals:stacked-two-species')
+        except LG.SnapFail:
+            ctx.count('snap-fail')
+        except Exception as e:
+            ctx.count('crystal-construction-error:' + type(e).__name__)
     plan = ['rhomb-obtuse', 'rhomb-acute', 'hexagonal', 'monoclinic', 'triclinic', 'needle', 'fcc', 'bcc', 'cubic',
             'tetragonal', 'orthorhombic']
     for t in range(nrand):
